@@ -371,3 +371,29 @@ def _classify(v):
 
 def t_match_class_patterns(u):
     return (_classify("ab") + _classify([1, 2, 3]) + _classify((1,)) + _classify(7) + _classify(2.5) + _classify({"k": 4}) + _classify(None)) * u
+
+
+import contextlib
+
+
+@contextlib.contextmanager
+def _opened(log, name):
+    log.append("open " + name)
+    try:
+        yield len(name)
+    finally:
+        log.append("close " + name)
+
+
+def t_contextmanager(u):
+    log = []
+    with _opened(log, "abc") as n:
+        log.append("body")
+        total = n
+    try:
+        with _opened(log, "zz") as n2:
+            total += n2
+            raise ValueError("x")
+    except ValueError:
+        total += 100
+    return (total + 1000 * len(log) + (10000 if log[-1] == "close zz" and log[2] == "close abc" else 0)) * u
